@@ -58,6 +58,7 @@ type svgScn struct {
 	Arc    svgArc   `json:"arc"`
 	From   []int    `json:"from"`
 	To     []int    `json:"to"`
+	Used   []int    `json:"used"`
 	Vp     svgVp    `json:"vp"`
 	Shape  struct {
 		Shape string `json:"shape"`
@@ -305,6 +306,21 @@ func c18Arc(s *svgScn, line []byte, out *drv.Out) {
 	if a.Dq == 2 && a.Cx == 3 { // also exercise flags written without separators
 		d = fmt.Sprintf("M %d %d %s %d %d 0 %d%d%d %d", s.From[0], s.From[1], letter, a.Rx, a.Ry, large, sweep, tx, ty)
 	}
+	if a.Kind == "two-groups" {
+		// the same half turn as two quarter arcs given as two argument groups of ONE command
+		q1 := a.Q0 + 1
+		if !a.Sweep {
+			q1 = a.Q0 + 3
+		}
+		cosq := []int{1, 0, -1, 0}
+		sinq := []int{0, 1, 0, -1}
+		mx, my := a.Cx+a.Rx*cosq[q1%4], a.Cy+a.Ry*sinq[q1%4]
+		if a.Rel {
+			d = fmt.Sprintf("M %d %d a %d %d 0 0 %d %d %d %d %d 0 0 %d %d %d", s.From[0], s.From[1], a.Rx, a.Ry, sweep, mx-s.From[0], my-s.From[1], a.Rx, a.Ry, sweep, s.To[0]-mx, s.To[1]-my)
+		} else {
+			d = fmt.Sprintf("M %d %d A %d %d 0 0 %d %d %d %d %d 0 0 %d %d %d", s.From[0], s.From[1], a.Rx, a.Ry, sweep, mx, my, a.Rx, a.Ry, sweep, s.To[0], s.To[1])
+		}
+	}
 	src := `<svg xmlns="http://www.w3.org/2000/svg" width="100" height="100"><path d="` + d + `"/></svg>`
 	out.Count("arcs")
 	key := "arc:" + a.Kind
@@ -341,10 +357,7 @@ func c18Arc(s *svgScn, line []byte, out *drv.Out) {
 		}
 		return
 	}
-	rx, ry := float64(a.Rx), float64(a.Ry)
-	if a.Kind == "too-small" {
-		rx, ry = 3, 3
-	}
+	rx, ry := float64(s.Used[0]), float64(s.Used[1]) // the radii actually used (scaled up when too small)
 	cx, cy := float64(a.Cx), float64(a.Cy)
 	p := [2]float64{got[0].N[0], got[0].N[1]}
 	total := 0.0
